@@ -1,7 +1,9 @@
 """Claim table: which properties are claimed, with which deciding technique."""
 
 TXT = ("Structural necessary conditions of the property, decided from the source of the current tree on every "
-       "path / call site / table row the rule quantifies over; a violated rule names the construct. ")
+       "path / call site / table row the rule quantifies over; a violated rule names the construct. The complete, current rule "
+       "list (including rules shared with other properties and those added after seeded changes were missed - DESIGN.md sections 15, 18) "
+       "with instance counts and floors is written to the evidence file (coverage.rules) on every run. ")
 
 CLAIMS = {
     "C03": {
